@@ -93,7 +93,7 @@ func specVariant(rng *rand.Rand, k int) (*common.Spec, string) {
 		sp.TARGET_COMMITTEE_SIZE = view.Uint64View(1 + rng.Intn(4))
 		sp.MAX_COMMITTEES_PER_SLOT = view.Uint64View(1 + rng.Intn(4))
 		sp.MIN_EPOCHS_TO_INACTIVITY_PENALTY = common.Epoch(1 + rng.Intn(4))
-		sp.MAX_SEED_LOOKAHEAD = common.Epoch(1 + rng.Intn(4))
+		sp.MAX_SEED_LOOKAHEAD = common.Epoch(rng.Intn(5))
 		sp.MIN_VALIDATOR_WITHDRAWABILITY_DELAY = common.Epoch(1 + rng.Intn(6))
 		sp.SHUFFLE_ROUND_COUNT = view.Uint8View(1 + rng.Intn(20))
 		sp.HYSTERESIS_QUOTIENT = view.Uint64View(2 + rng.Intn(6))
